@@ -1,5 +1,5 @@
 (* C11 — Index files are derived data: always consistent, always rebuildable. *)
-From KV Require Import Base Model Spec SegProofs ReaderProofs LogInv OpenProofs History.
+From KV Require Import Base Model Spec SegProofs ReaderProofs LogInv OpenProofs History KeyProofs KeyInv TimeProofs.
 
 (* a closed directory produced by Close: every segment — not only the newest — is well-formed; where an
    index file is present and not header-only it agrees with the log file on every offset and position *)
@@ -48,3 +48,26 @@ Theorem C11_rebuild :
                    seg_ok s' items /\ seg_inv s' /\ same_shape s s'.
 Proof. exact ensure_index_ok. Qed.
 Print Assumptions C11_rebuild.
+
+(* in every state reached by a history that keeps its index options (publishes with rollover, deletes, reads,
+   close/reopen in any mode, index removal, Migrate, Recover) every index file present - of every segment, not
+   only the newest - is empty (header-only) or EXACTLY the index derived from its log file: offsets, positions
+   and key hashes always; the timestamps are the running maximum started from some value ts0 (0 for a rebuilt
+   index, the carried time for one written by the writer) *)
+Theorem C11_index_files_are_derived :
+  forall (H : bytes -> Z) p ops, Forall (uses p) ops ->
+  let st := fst (hrun H init_state ops) in
+  forall s iv items, In s (segs st) -> sidx s = Some (iv, items) ->
+  items = [] \/ exists ts0, items = derive_from H p (sver s) (hdr_size (sver s)) ts0 (srecs s).
+Proof.
+  intros H p ops Hu st s iv items Hs Hi. destruct (khistory H p ops init_state (kgood_init H p) Hu) as (_ & HX & _).
+  fold st in HX. rewrite Forall_forall in HX. exact (HX s Hs iv items Hi).
+Qed.
+Print Assumptions C11_index_files_are_derived.
+
+(* and whenever message times never decrease (from ts0 on) the timestamp column equals the message times, whatever ts0 *)
+Theorem C11_timestamps_when_monotone :
+  forall (H : bytes -> Z) p v, ptimes p = true -> forall recs cur ts0,
+  tmono ts0 recs -> map its (derive_from H p v cur ts0 recs) = map mtime recs.
+Proof. exact derive_faithful. Qed.
+Print Assumptions C11_timestamps_when_monotone.
